@@ -21,7 +21,7 @@ Proof.
   - split; reflexivity.
 Qed.
 
-Lemma single_op_plain c ty : single_op c = Some ty -> lx_is_string ty = false /\ lx_is_comment ty = false.
+Lemma single_op_lx_plain c ty : single_op c = Some ty -> lx_is_string ty = false /\ lx_is_comment ty = false.
 Proof.
   unfold single_op. intro H.
   repeat match type of H with
@@ -31,7 +31,7 @@ Qed.
 
 (* the double-operator table: what it returns is never a string or a comment, and a one-character result
    does not depend on which non-combining character follows *)
-Lemma double_op_plain c nx ty v dbl : double_op c nx = Some (ty, v, dbl) ->
+Lemma double_op_lx_plain c nx ty v dbl : double_op c nx = Some (ty, v, dbl) ->
   lx_is_string ty = false /\ lx_is_comment ty = false /\
   (dbl = false -> double_op c (Some 32) = Some (ty, v, false)).
 Proof.
@@ -67,7 +67,7 @@ Proof.
     unfold plain_ok. rewrite Ew, Ed, Hall. reflexivity. }
   destruct (single_op c) as [ty|] eqn:Eo.
   { inversion H; subst. clear H. unfold printable, lx_obs, create_token. cbn [fst snd tty tval].
-    destruct (single_op_plain c ty Eo) as [-> ->]. unfold plain_ok. rewrite Ew, Ed, Eo, tt_idx_eqb_refl. reflexivity. }
+    destruct (single_op_lx_plain c ty Eo) as [-> ->]. unfold plain_ok. rewrite Ew, Ed, Eo, tt_idx_eqb_refl. reflexivity. }
   destruct (c =? 39) eqn:E39.
   { destruct (read_sq r (off + 1)) as [[[v rest'] nl] n]. inversion H; subst. reflexivity. }
   destruct (c =? 34) eqn:E34.
@@ -81,7 +81,7 @@ Proof.
   { apply N.eqb_eq in E35. subst c. destruct (span is_digit r) as [d rest'] eqn:Es. inversion H; subst. clear H.
     destruct d; reflexivity. }
   destruct (double_op c (match r with x :: _ => Some x | [] => None end)) as [[[ty v] dbl]|] eqn:Edo; [|inversion H].
-  destruct (double_op_plain _ _ _ _ _ Edo) as (Hs & Hc & H32).
+  destruct (double_op_lx_plain _ _ _ _ _ Edo) as (Hs & Hc & H32).
   destruct (double_op_facts _ _ _ _ _ Edo) as [_ Hv].
   assert (t = create_token st off ty v) as -> by (destruct dbl; inversion H; reflexivity). clear H.
   unfold printable, lx_obs, create_token. cbn [fst snd tty tval]. rewrite Hs, Hc.
